@@ -133,7 +133,7 @@ Lemma unary_true_false K ts :
   p_unary (kit_step K) true ts = bindp (p_unary (kit_step K) false ts) (fun n r => p_filter_expr K n r).
 Proof.
   rewrite !step_p_unary.
-  destruct (if is_op OSub ts then _ else _) as [n r| | |]; cbn [bindp]; try reflexivity.
+  destruct (if is_op OSub ts then _ else _) as [n r|?| |]; cbn [bindp]; try reflexivity.
   destruct (p_postfix K n r); reflexivity.
 Qed.
 
@@ -156,7 +156,7 @@ Lemma lift10 ts e r : parses E11 ts e r -> is_op OSub ts = false -> is_op OAdd t
 Proof.
   intros [m0 H] H1 H2. exists (S m0). intros m Hm. destruct m as [|m]; try lia.
   unroll m. rewrite step_p_unary, H1, H2. specialize (H m ltac:(lia)). unfold E11 in H.
-  destruct (p_primary (kit_of m) ts) as [n r0| | |]; cbn [bindp] in *; try discriminate.
+  destruct (p_primary (kit_of m) ts) as [n r0|?| |]; cbn [bindp] in *; try discriminate.
   rewrite H. reflexivity.
 Qed.
 
